@@ -485,7 +485,7 @@ func (l *TCPListener) AcceptTCP() (*TCPConn, error) {
 		if len(l.backlog) > 0 {
 			if !l.Foreign && l.w.AcceptErr > 0 && simrt.S.Fault.Permille(l.w.AcceptErr) {
 				simrt.Fault("accept_transient_error")
-				return nil, opErr("accept", "tcp", l.addr, syscall.ECONNABORTED)
+				return nil, opErr("accept", "tcp", l.addr, syscall.EMFILE) // what Linux really reports to Go (ECONNABORTED is retried inside Accept)
 			}
 			c := l.backlog[0]
 			l.backlog = l.backlog[1:]
@@ -674,8 +674,17 @@ func (d *TCPDialer) dial(ctx context.Context, addr string) (*TCPConn, error) {
 			cip = net.IPv4(127, 0, 0, 1).To4()
 		}
 		c, err := w.Connect(nil, cip, port)
+		if err == nil && ctx.Err() != nil {
+			// as net.Dialer: a context cancelled while the connect was in flight makes
+			// the dial fail even if the handshake completed (the socket is closed)
+			c.Close()
+			c, err = nil, opErr("dial", "tcp", &net.TCPAddr{IP: ip, Port: port}, ctx.Err())
+			simrt.Probe("dial_cancelled_during_connect")
+		}
 		rec.Err = err
-		rec.Conn = c
+		if c != nil {
+			rec.Conn = c
+		}
 		if err == nil {
 			rec.IP = ip
 			return c, nil
